@@ -1,8 +1,8 @@
 (* C29 — callback closures stay distinct and bound to their own function.
 
    Model of src/c/malloc_closure.h (free_list, more_core, cffi_closure_alloc, cffi_closure_free)
-   and of its two clients in src/c/_cffi_backend.c: b_callback (:6395) and
-   cdataowninggc_dealloc (:1953).
+   and of its two clients in src/c/_cffi_backend.c: b_callback (:6418) and
+   cdataowninggc_dealloc (:1978).
 
    An address is (block, slot): the slot-th item of the block-th mmap() made by more_core.
    That two different mmap()s never overlap is the one thing assumed about the OS (it is built into
